@@ -20,6 +20,7 @@ pub fn render_all(tr: &mut Tracer, a: &Value, plain_ok: bool, i: usize) {
     if i % 5 == 0 {
         tr.emit(json!({"op": "fmt", "kind": "display", "form": "to_string", "a": a}));
         tr.emit(json!({"op": "fmt", "kind": "debug_alt", "form": "val", "a": a}));
+        tr.emit(json!({"op": "fmt", "kind": "debug", "form": "val", "a": a}));
     }
 }
 
